@@ -153,7 +153,34 @@ func childCases(sp *childSpec) int {
 		}
 		o := opts(sp.Tier, idx)
 		journal(jf, fmt.Sprintf("case %d", idx))
-		if sp.Prop == "C16" {
+		if sp.Prop == "C16" && idx%2 == 1 {
+			// second mode: a manager with a history (state A synced, cluster changes to B)
+			rng := evid.NewRng(sp.Seed, "c16t", idx)
+			tc := genC16Trans(rng, idx, o)
+			r := evalC16T(tc)
+			run.Eval(1)
+			run.Count("transition_cases", 1)
+			for k, v := range r.counters {
+				run.Count(k, v)
+			}
+			if r.inconclusive != "" {
+				run.Inconclusive(fmt.Sprintf("case %d: %s", idx, r.inconclusive))
+			}
+			if r.nontrivial {
+				data, _ := json.Marshal(tc)
+				run.Nontrivial(shapeHash(string(data)) + shapeHash("x"+string(data)))
+				run.Count("nontrivial_transition_cases", 1)
+			}
+			if len(r.viols) == 0 {
+				run.Count("transition_cases_without_mismatch", 1)
+			}
+			for sig, v := range r.viols {
+				note(sig, v.Msg, v.Count, tc, tc.size(), idx)
+			}
+			if idx < 40 && idx%13 == 1 {
+				run.Sample(map[string]interface{}{"case": idx, "transition": tc, "mismatch_signatures": keysOf(r.viols)})
+			}
+		} else if sp.Prop == "C16" {
 			rng := evid.NewRng(sp.Seed, "c16", idx)
 			focus := idx % len(focusNames)
 			bare := (idx/len(focusNames))%3 == 0
@@ -250,13 +277,20 @@ type shrinkOut struct {
 func childShrink(sp *childSpec) int {
 	out := shrinkOut{Sig: sp.Sig}
 	if sp.Prop == "C16" {
-		var c Cluster
-		if err := json.Unmarshal(sp.Input, &c); err != nil {
-			return evid.ExitBroken
+		var tc C16Trans
+		if json.Unmarshal(sp.Input, &tc) == nil && tc.A != nil && tc.B != nil {
+			small, n := shrinkC16T(&tc, sp.Sig, sp.Budget)
+			out.Evals, out.Size = n, small.size()
+			out.Witness, out.Msg, out.OK = c16TWitness(small, sp.Sig)
+		} else {
+			var c Cluster
+			if err := json.Unmarshal(sp.Input, &c); err != nil {
+				return evid.ExitBroken
+			}
+			small, n := shrinkC16(&c, sp.Sig, sp.Budget)
+			out.Evals, out.Size = n, small.size()
+			out.Witness, out.Msg, out.OK = c16Witness(small, sp.Sig)
 		}
-		small, n := shrinkC16(&c, sp.Sig, sp.Budget)
-		out.Evals, out.Size = n, small.size()
-		out.Witness, out.Msg, out.OK = c16Witness(small, sp.Sig)
 	} else {
 		var cs C15Case
 		if err := json.Unmarshal(sp.Input, &cs); err != nil {
@@ -353,7 +387,12 @@ func parentMain(fl *evid.Flags) int {
 			"pods, <= 5 policies); flows = ordered pairs of {pods with IP} + {every ipBlock/except boundary +-1, 2 unrelated " +
 			"addresses} with at least one end a pod on this node x {every port named by a policy, 9999} x {tcp, udp}. " +
 			"Non-trivial and distinct: reference verdicts for isolated pods contain both allow and deny (fingerprint = hash of " +
-			"the cluster)."
+			"the cluster). Even case indices: rules of a fresh manager after one full sync. Odd case indices: a manager with a " +
+			"history - cluster A synced, then 1-3 mutations (" + strings.Join(c16Mutations, ", ") + ") give cluster B, which " +
+			"reaches the manager either as informer events, all delivered (judged right after the handlers and again after a " +
+			"full resync), or as a plain cache change followed by a full resync; same flows, judged against B. A mismatch that " +
+			"a fresh manager's rules for B do not have is attributed to the part of the installed state (hook, pod chain, policy " +
+			"chain, set) whose replacement by the fresh manager's repairs the verdict."
 		run.Assume("the strict fakes hold exactly what galaxy installed; hash:net lookup = most specific element decides, nomatch " +
 			"element means no match; hash:net refuses a /0 element")
 		run.Assume("a new connection's first packet has conntrack state NEW; pod-to-pod and pod-to-external traffic crosses the " +
@@ -506,6 +545,17 @@ func parentMain(fl *evid.Flags) int {
 		if run.Counter("same_node_egress-allow_ingress-deny") == 0 {
 			run.Inconclusive("no same-node flow with egress allowed and ingress denied was observed")
 		}
+		for _, mu := range c16Mutations {
+			if run.Counter("mutation:"+mu) == 0 {
+				run.Inconclusive("transition mode: mutation never applied: " + mu)
+			}
+		}
+		for _, c := range []string{"transitions_via_events", "transitions_via_resync", "flows_compared-after-events",
+			"flows_compared-after-events+resync", "flows_compared-after-resync"} {
+			if run.Counter(c) == 0 {
+				run.Inconclusive("transition mode: never observed: " + c)
+			}
+		}
 		if run.Counter("checks_on_isolated_pod") == 0 || run.Counter("checks_on_unisolated_pod") == 0 {
 			run.Inconclusive("isolated / unisolated pods not both observed")
 		}
@@ -537,8 +587,9 @@ func replayMain(fl *evid.Flags) int {
 		Violation struct {
 			Sig     string `json:"sig"`
 			Witness struct {
-				Cluster *Cluster `json:"cluster"`
-				Case    *C15Case `json:"case"`
+				Cluster    *Cluster  `json:"cluster"`
+				Case       *C15Case  `json:"case"`
+				Transition *C16Trans `json:"transition"`
 			} `json:"witness"`
 		} `json:"violation"`
 	}
@@ -548,6 +599,8 @@ func replayMain(fl *evid.Flags) int {
 	}
 	var viols map[string]*violation
 	switch {
+	case fl.Prop == "C16" && file.Violation.Witness.Transition != nil:
+		viols = evalC16T(file.Violation.Witness.Transition).viols
 	case fl.Prop == "C16" && file.Violation.Witness.Cluster != nil:
 		viols = evalC16(file.Violation.Witness.Cluster).viols
 	case fl.Prop == "C15" && file.Violation.Witness.Case != nil:
